@@ -5,9 +5,15 @@ export GOFLAGS=-mod=mod GOPROXY=off GOSUMDB=off GOTOOLCHAIN=local
 ROOT=$(cd "$(dirname "$0")" && pwd)
 mkdir -p "$ROOT/bin"
 TMPBIN="$ROOT/bin/verifchk.$$"
-( cd "$ROOT/harness" && go build -tags verif -o "$TMPBIN" ./cmd/verifchk ) >"$ROOT/bin/build.$$.log" 2>&1 || {
+# VERIF_REPO (default /repo) lets a background sweep run against a pristine snapshot of the repository
+MODFLAG=""
+if [ -n "$VERIF_REPO" ] && [ "$VERIF_REPO" != /repo ]; then
+  sed "s#=> /repo\$#=> $VERIF_REPO#" "$ROOT/harness/go.mod" > "$ROOT/bin/alt.$$.mod"; cp "$ROOT/harness/go.sum" "$ROOT/bin/alt.$$.sum"
+  MODFLAG="-modfile=$ROOT/bin/alt.$$.mod"; export VERIF_MODFLAG="$MODFLAG"
+fi
+( cd "$ROOT/harness" && go build $MODFLAG -tags verif -o "$TMPBIN" ./cmd/verifchk ) >"$ROOT/bin/build.$$.log" 2>&1 || {
   echo "HARNESS-ERROR: harness does not build against /repo's working tree"; cat "$ROOT/bin/build.$$.log"; rm -f "$ROOT/bin/build.$$.log" "$TMPBIN"; exit 2; }
 rm -f "$ROOT/bin/build.$$.log"
 [ -x "$ROOT/bin/maporder" ] || ( cd "$ROOT/tools/maporder" && go build -o "$ROOT/bin/maporder" . ) || { echo "HARNESS-ERROR: cannot build the maporder tool"; exit 2; }
-trap 'rm -f "$TMPBIN"' EXIT
-VERIF_ROOT="$ROOT" "$TMPBIN" "$@"
+trap 'rm -f "$TMPBIN" "$ROOT/bin/alt.$$.mod" "$ROOT/bin/alt.$$.sum"' EXIT
+VERIF_ROOT="${VERIF_ROOT_OVERRIDE:-$ROOT}" "$TMPBIN" "$@"
